@@ -12,8 +12,9 @@ SFX = {'create_node': '11create_nodeIJRKiEEEPNS1_10value_nodeIimEEmDpOT_', 'init
        'adjust_table_size': '17adjust_table_sizeEmm', 'create_dummy_node': '17create_dummy_nodeEm'}
 def AA(names, multi=0): return [CUB(multi) + SFX[n] for n in names]
 AA_CORE = AA(['create_node', 'destroy_node', 'adjust_table_size'])
-IB = CUB(0) + SFX['init_bucket']
-US_CBMC = ['--unwind', '11', '--unwindset', 'vp_us_ctor.0:70,' + ','.join('%s.%d:6' % (IB, i) for i in range(6)), '--object-bits', '10']
+def US_CBMC(multi=0):
+    ib = CUB(multi) + SFX['init_bucket']
+    return ['--unwind', '11', '--unwindset', 'vp_us_ctor.0:70,' + ','.join('%s.%d:6' % (ib, i) for i in range(6)), '--object-bits', '10']
 def US_UNIT(threads, init_inline=False, multi=0, unroll=2):
     # core units: init_bucket runs atomically (kept out of line); init units: init_bucket/insert_dummy_node inlined into the thread body.
     # In both, init_bucket's recursion on the parent is not followed (unrec depth 0): scenarios initialise the parent bucket in the
@@ -22,41 +23,119 @@ def US_UNIT(threads, init_inline=False, multi=0, unroll=2):
     aa = AA(['create_node', 'destroy_node', 'adjust_table_size', 'create_dummy_node'] + ([] if init_inline else ['init_bucket']), multi)
     return dict(wrapper='w_uset.cpp', mode='lcs', unroll=unroll, ptratomics=True, cut=CUT, noinline=noinl, unrec={'11init_bucketEm': 0},
                 allow_atomic=aa, threads=threads, cxxflags=['-DMULTI=%d' % multi])
+def SKL(multi, maxh): return '_ZN3tbb6detail2d220concurrent_skip_listINS1_10set_traitsIiSt4lessIiE10VpLevelGen7VpAllocIiELb%dEEEE' % multi
+def SK_UNIT(threads, multi=0, unroll=1, maxh=3, head_inline=False):
+    # executed atomically (thread-private work): node creation (allocation, level-pointer construction, value) and destruction of a
+    # node that lost; head creation is atomic too unless head_inline (its CAS race is the subject of the 'head' scenario)
+    aa = [SKL(multi, maxh) + '17create_value_nodeIJRKiEEEPNS1_14skip_list_nodeIiS7_IhEEEDpOT_', SKL(multi, maxh) + '17delete_value_nodeEPNS1_14skip_list_nodeIiS7_IhEEE']
+    noinl = ['17create_value_nodeIJRKiEEEPNS1_14skip_list_node', '17delete_value_nodeEPNS1_14skip_list_node']
+    if not head_inline: aa.append(SKL(multi, maxh) + '24create_head_if_necessaryEv'); noinl.append('24create_head_if_necessaryEv')
+    return dict(wrapper='w_skip.cpp', mode='lcs', unroll=unroll, ptratomics=True, prune=True, threads=threads, noinline=noinl, allow_atomic=aa,
+                cxxflags=['-DMULTI=%d' % multi, '-DMAXH=%d' % maxh])
 UNITS = {
   'sokey': dict(wrapper='w_sokey.cpp', mode='seq', selftest=True, cut=['5localEv']),
-  'us_i_i': US_UNIT({'vp_thr_i': ['a', 'b']}),
-  'us_i_i1': US_UNIT({'vp_thr_i': ['a', 'b']}, unroll=1),
-  'us_i_f': US_UNIT({'vp_thr_i': ['a'], 'vp_thr_f': ['b']}),
   'seg2': dict(wrapper='w_uset.cpp', mode='lcs', unroll=2, ptratomics=True, threads={'vp_thr_s': ['a', 'b']}, prune=True),
-  'us_i_t': US_UNIT({'vp_thr_i': ['a'], 'vp_thr_t': ['b']}, unroll=2),
+  # split-ordered list, K=1 (quick) and K=2 (thorough) loop unrolling
+  'us_i_i1': US_UNIT({'vp_thr_i': ['a', 'b']}, unroll=1),
+  'us_i_i': US_UNIT({'vp_thr_i': ['a', 'b']}),
+  'us_i_f': US_UNIT({'vp_thr_i': ['a'], 'vp_thr_f': ['b']}),
+  'us_i_t': US_UNIT({'vp_thr_i': ['a'], 'vp_thr_t': ['b']}),
+  'us_ii_i1': US_UNIT({'vp_thr_ii': ['a'], 'vp_thr_i': ['b']}, unroll=1),
+  'us_i_i_i1': US_UNIT({'vp_thr_i': ['a', 'b', 'c']}, unroll=1),
   'usI_g_g1': US_UNIT({'vp_thr_g': ['a', 'b']}, init_inline=True, unroll=1),
   'usI_g_i1': US_UNIT({'vp_thr_g': ['a'], 'vp_thr_i': ['b']}, init_inline=True, unroll=1),
+  'um_i_i1': US_UNIT({'vp_thr_i': ['a', 'b']}, unroll=1, multi=1),
+  'um_i_c1': US_UNIT({'vp_thr_i': ['a'], 'vp_thr_c': ['b']}, unroll=1, multi=1),
+  # skip list
+  'sk_i_i': SK_UNIT({'vp_thr_ki': ['a', 'b']}),
+  'sk_i_i2': SK_UNIT({'vp_thr_ki': ['a', 'b']}, unroll=2),
+  'sk_i_f': SK_UNIT({'vp_thr_ki': ['a'], 'vp_thr_kf': ['b']}),
+  'sk_i_t': SK_UNIT({'vp_thr_ki': ['a'], 'vp_thr_kt': ['b']}),
+  'skH_i_i': SK_UNIT({'vp_thr_ki': ['a', 'b']}, head_inline=True),
+  'skm_i_i': SK_UNIT({'vp_thr_ki': ['a', 'b']}, multi=1),
 }
+# pre-state of most split-ordered-list scenarios: 2 buckets, both initialised by sequential inserts of 2 (bucket 0) and 3 (bucket 1)
 USD = {'ROUNDS': 1, 'NB': 2, 'NPRE': 2, 'PRE0': 2, 'PRE1': 3}
+LCSB = {'threads': 2, 'free_rounds': 1, 'forced_rounds': 2, 'loop_unroll': 1}
+def B(**kw): d = dict(LCSB); d.update(kw); return d
+SK_CBMC = ['--unwind', '8', '--object-bits', '10']
 HARNESSES = [
-  dict(name='sokey_arith', unit='sokey', harness='h_sokey.c', scenarios=[{'PART': p} for p in range(1, 9)], cbmc=['--unwind', '70'],
-       desc='split-order key arithmetic', bounds={}),
-  dict(name='uset_ins_2t', unit='us_i_i', harness='h_uset.c', defines=dict(USD, TA='i', TB='i', NV=4, ND=1),
-       scenarios=[{'KA0': 5, 'KB0': 5}, {'KA0': 5, 'KB0': 7}, {'KA0': 5, 'KB0': 5, 'HMODE': 1}, {'KA0': 5, 'KB0': 7, 'HMODE': 1}], cbmc=US_CBMC, timeout=900,
-       desc='', bounds={}),
-  dict(name='uset_find_2t', unit='us_i_f', harness='h_uset.c', defines=dict(USD, TA='i', TB='f', NV=3, ND=1),
-       scenarios=[{'KA0': 5, 'KB0': 5}, {'KA0': 5, 'KB0': 3}], cbmc=US_CBMC, timeout=900,
-       desc='', bounds={}),
-  dict(name='uset_init_gg', unit='usI_g_g1', harness='h_uset.c', defines=dict(ROUNDS=1, TA='g', TB='g'),
-       scenarios=[dict(NB=2, NPRE=1, PRE0=2, KA0=1, KB0=1, NV=1, ND=2), dict(NB=4, NPRE=2, PRE0=4, PRE1=1, KA0=3, KB0=3, NV=2, ND=3)], cbmc=US_CBMC, timeout=900,
-       desc='', bounds={}),
-  dict(name='uset_init_gi', unit='usI_g_i1', harness='h_uset.c', defines=dict(ROUNDS=1, TA='g', TB='i'),
-       scenarios=[dict(NB=4, NPRE=2, PRE0=4, PRE1=1, KA0=3, KB0=5, NV=3, ND=2)], cbmc=US_CBMC, timeout=900,
-       desc='', bounds={}),
-  dict(name='uset_ins1_2t', unit='us_i_i1', harness='h_uset.c', defines=dict(USD, TA='i', TB='i', NV=4, ND=1),
-       scenarios=[{'KA0': 5, 'KB0': 5}], cbmc=US_CBMC, timeout=900,
-       desc='', bounds={}),
+  dict(name='sokey_arith', unit='sokey', harness='h_sokey.c', scenarios=[{'PART': p} for p in range(1, 9)], cbmc=['--unwind', '70'], timeout=600,
+       desc='full 64-bit lemmas over the real reverse_bits / split_order_key_regular / split_order_key_dummy / get_parent / get_next_bucket_index / '
+            'unsafe_bucket / segment_index_of,segment_base,segment_size / round_up_to_power_of_two / level generator: reversal is the exact bit '
+            'permutation (involution), regular keys odd, dummy keys even, parent dummy < child dummy < keys of the bucket < next dummy for every '
+            'table size 2^n, doubling moves a key to b or b+N whose parent is b, bucket -> (segment, offset) tiles the index space, height in [1, max_level]',
+       bounds={'width': '64 bit, all values symbolic', 'table size': 'every 2^n, n symbolic'}),
   dict(name='segtab_2t', unit='seg2', harness='h_segtab.c', defines=dict(ROUNDS=2),
-       scenarios=[dict(IA=1, IB=1), dict(IA=0, IB=1), dict(IA=3, IB=3), dict(IA=1, IB=2), dict(IA=5, IB=6)], cbmc=['--unwind', '70', '--object-bits', '10'], timeout=600,
-       desc='', bounds={}),
+       scenarios_quick=[dict(IA=1, IB=1), dict(IA=1, IB=2), dict(IA=5, IB=6)],
+       scenarios=[dict(IA=1, IB=1), dict(IA=0, IB=1), dict(IA=3, IB=3), dict(IA=1, IB=2), dict(IA=5, IB=6), dict(IA=4, IB=7)], cbmc=['--unwind', '70', '--object-bits', '10'], timeout=600,
+       desc='bucket table my_segments[i] || my_segments[j] (real segment_table::internal_subscript/enable_segment/create_segment/deallocate_segment): lazy segment '
+            'allocation race: one segment survives, same slot for the same index, loser freed once, slot addresses stable',
+       bounds=B(free_rounds=2, loop_unroll=2, indices='concrete per scenario (segments 0,1,2)')),
+  dict(name='uset_ins_2t', unit='us_i_i1', harness='h_uset.c', defines=dict(USD, TA='i', TB='i', NV=4, ND=1),
+       scenarios_quick=[{'KA0': 5, 'KB0': 5}, {'KA0': 5, 'KB0': 7}, {'KA0': 5, 'KB0': 7, 'HMODE': 1}],
+       scenarios=[{'KA0': 5, 'KB0': 5}, {'KA0': 5, 'KB0': 7}, {'KA0': 5, 'KB0': 4}, {'KA0': 3, 'KB0': 3}, {'KA0': 5, 'KB0': 5, 'HMODE': 1}, {'KA0': 5, 'KB0': 7, 'HMODE': 1},
+                  {'KA0': 4, 'KB0': 5, 'HMODE': 3, 'PRE0': 2, 'PRE1': 1}, {'KA0': 5, 'KB0': 7, 'HMODE': 2}],
+       cbmc=US_CBMC(), timeout=900, thorough_override=dict(unit='us_i_i', defines=dict(USD, TA='i', TB='i', NV=4, ND=1, ROUNDS=2), timeout=2400),
+       desc='concurrent_unordered_set<int>: insert(ka) || insert(kb) through the real internal_insert/search_after/try_insert (same key: one winner; keys adjacent in '
+            'split order at the same predecessor; all keys one hash: equal order keys decided by key_equal). Whole-list oracle at quiescence.',
+       bounds=B(keys='concrete per scenario', hash='identity | constant | 16k | bit63 alias', buckets=2, thorough='free_rounds 2, loop_unroll 2')),
+  dict(name='uset_find_2t', unit='us_i_f', harness='h_uset.c', defines=dict(USD, TA='i', TB='f', NV=3, ND=1),
+       scenarios=[{'KA0': 5, 'KB0': 5}, {'KA0': 5, 'KB0': 3}], cbmc=US_CBMC(), timeout=900, thorough_override=dict(defines=dict(USD, TA='i', TB='f', NV=3, ND=1, ROUNDS=2), timeout=2400),
+       desc='insert(ka) || find(kb): a find that starts after the insert returned finds the key; a pre-existing key behind the insertion point is never missed',
+       bounds=B(loop_unroll=2, thorough='free_rounds 2')),
   dict(name='uset_trav_2t', unit='us_i_t', harness='h_uset.c', defines=dict(USD, TA='i', TB='t', NV=3, ND=1),
-       scenarios=[{'KA0': 5}], cbmc=US_CBMC, timeout=900,
-       desc='', bounds={}),
+       scenarios=[{'KA0': 5}], scenarios_thorough=[{'KA0': 5}, {'KA0': 1}, {'KA0': 5, 'HMODE': 1}], cbmc=US_CBMC(), timeout=900,
+       desc='insert(k) || full iteration begin()..end(): every element present before the traversal began is seen exactly once, nothing twice, order = list order',
+       bounds=B(loop_unroll=2)),
+  dict(name='uset_init_gg', unit='usI_g_g1', harness='h_uset.c', defines=dict(ROUNDS=1, TA='g', TB='g'),
+       scenarios_quick=[dict(NB=4, NPRE=2, PRE0=4, PRE1=1, KA0=3, KB0=3, NV=2, ND=3)],
+       scenarios=[dict(NB=2, NPRE=1, PRE0=2, KA0=1, KB0=1, NV=1, ND=2), dict(NB=4, NPRE=2, PRE0=4, PRE1=1, KA0=3, KB0=3, NV=2, ND=3), dict(NB=4, NPRE=1, PRE0=4, KA0=1, KB0=2, NV=1, ND=2)],
+       cbmc=US_CBMC(), timeout=1200,
+       desc='get_bucket(b) || get_bucket(b\'): two threads initialise the same bucket (or two children of one parent) with init_bucket/insert_dummy_node inlined: '
+            'one dummy node per bucket, in order, registered in the table, loser freed',
+       bounds=B(parent='initialised in the pre-state (recursion not followed; asserted unreachable)')),
+  dict(name='uset_init_gi', unit='usI_g_i1', harness='h_uset.c', defines=dict(ROUNDS=1, TA='g', TB='i'),
+       scenarios=[dict(NB=4, NPRE=2, PRE0=4, PRE1=1, KA0=3, KB0=5, NV=3, ND=2)],
+       scenarios_thorough=[dict(NB=4, NPRE=2, PRE0=4, PRE1=1, KA0=3, KB0=5, NV=3, ND=2), dict(NB=4, NPRE=2, PRE0=4, PRE1=1, KA0=3, KB0=7, NV=3, ND=3)], cbmc=US_CBMC(), timeout=1200,
+       desc='bucket 3 being initialised (dummy node inserted behind the keys of bucket 1) || insert of a key at the same predecessor / into the bucket being initialised',
+       bounds=B()),
+  dict(name='uset_grow_2t', unit='us_ii_i1', harness='h_uset.c', tiers=['thorough'], defines=dict(ROUNDS=1, TA='ii', TB='i', NB=1, MLF10=10, NPRE=1, PRE0=2, BCLIM=4, NV=4, ND=2),
+       scenarios=[dict(KA0=4, KA1=6, KB0=8), dict(KA0=4, KA1=1, KB0=3)], cbmc=US_CBMC(), timeout=2400,
+       desc='max_load_factor 1.0, one bucket: the inserts double the bucket count (adjust_table_size CAS) while the other thread inserts; keys stay reachable through the grown table',
+       bounds=B(note='init_bucket atomic')),
+  dict(name='uset_ins_3t', unit='us_i_i_i1', harness='h_uset.c', tiers=['thorough'], defines=dict(USD, NT=3, TA='i', TB='i', TC='i', NV=5, ND=1),
+       scenarios=[dict(KA0=5, KB0=5, KC0=5), dict(KA0=5, KB0=7, KC0=5)], cbmc=US_CBMC(), timeout=3000, mem_gb=16,
+       desc='three concurrent inserts (same key / adjacent keys)', bounds=B(threads=3)),
+  dict(name='umset_ins_2t', unit='um_i_i1', harness='h_uset.c', tiers=['thorough'], defines=dict(USD, MULTI=1, TA='i', TB='i', NV=4, ND=1),
+       scenarios=[{'KA0': 3, 'KB0': 3}, {'KA0': 5, 'KB0': 5}], cbmc=US_CBMC(1), timeout=2400,
+       desc='concurrent_unordered_multiset: two inserts of one key (already present / absent): both succeed, multiplicity exact, equal keys adjacent', bounds=B()),
+  dict(name='umset_count_2t', unit='um_i_c1', harness='h_uset.c', tiers=['thorough'], defines=dict(USD, MULTI=1, TA='i', TB='c', NV=3, ND=1),
+       scenarios=[{'KA0': 3, 'KB0': 3}], cbmc=US_CBMC(1), timeout=2400,
+       desc='multiset insert(k) || count(k): count within [completed, started] inserts', bounds=B()),
+  dict(name='skip_ins_2t', unit='sk_i_i', harness='h_skip.c', defines=dict(ROUNDS=1, TA='ki', TB='ki', MAXH=3, NPRE=1, PRE0=4, PH0=2, NN=4),
+       scenarios_quick=[dict(KA0=6, KB0=6, HA=2, HB=1), dict(KA0=6, KB0=7, HA=2, HB=2)],
+       scenarios=[dict(KA0=6, KB0=6, HA=1, HB=1), dict(KA0=6, KB0=6, HA=2, HB=1), dict(KA0=6, KB0=7, HA=2, HB=2), dict(KA0=6, KB0=7, HA=3, HB=3), dict(KA0=2, KB0=3, HA=3, HB=2),
+                  dict(KA0=2, KB0=6, HA=3, HB=3), dict(KA0=4, KB0=4, HA=3, HB=1)],
+       cbmc=SK_CBMC, timeout=1200, thorough_override=dict(unit='sk_i_i2', timeout=3000),
+       desc='concurrent_set<int> (real concurrent_skip_list with a stub level generator, max_level 3): insert || insert through internal_insert_node/'
+            'fill_prev_curr_arrays/internal_find_position, node heights per scenario: level 0 strictly sorted, one winner, every level links exactly the nodes of that height',
+       bounds=B(max_level=3, heights='concrete per scenario', thorough='loop_unroll 2')),
+  dict(name='skx_a', unit='sk_i_i2', harness='h_skip.c', defines=dict(ROUNDS=1, TA='ki', TB='ki', MAXH=3, NPRE=1, PRE0=4, PH0=2, NN=4), scenarios=[dict(KA0=6, KB0=7, HA=2, HB=2)], cbmc=SK_CBMC, timeout=1500, desc='', bounds={}),
+  dict(name='skx_b', unit='sk_i_i', harness='h_skip.c', defines=dict(ROUNDS=2, TA='ki', TB='ki', MAXH=3, NPRE=1, PRE0=4, PH0=2, NN=4), scenarios=[dict(KA0=6, KB0=7, HA=2, HB=2)], cbmc=SK_CBMC, timeout=1500, desc='', bounds={}),
+  dict(name='skip_head_2t', unit='skH_i_i', harness='h_skip.c', defines=dict(ROUNDS=1, TA='ki', TB='ki', MAXH=3, NPRE=0, NN=4),
+       scenarios=[dict(KA0=6, KB0=7, HA=1, HB=2)], tiers=['thorough'], cbmc=SK_CBMC, timeout=2400,
+       desc='first two inserts into an empty container: create_head_if_necessary race (one head, loser freed)', bounds=B(max_level=3)),
+  dict(name='skip_find_2t', unit='sk_i_f', harness='h_skip.c', defines=dict(ROUNDS=1, TA='ki', TB='kf', MAXH=3, NPRE=2, PRE0=4, PH0=2, PRE1=8, PH1=2, NN=4),
+       scenarios=[dict(KA0=6, KB0=8, HA=2)], scenarios_thorough=[dict(KA0=6, KB0=8, HA=2), dict(KA0=6, KB0=6, HA=3), dict(KA0=6, KB0=8, HA=3)], cbmc=SK_CBMC, timeout=1200,
+       desc='insert(ka) || find(kb): an existing key behind the insertion point is found while a taller node is being linked level by level; find after insert returned finds it',
+       bounds=B(max_level=3)),
+  dict(name='skip_trav_2t', unit='sk_i_t', harness='h_skip.c', defines=dict(ROUNDS=1, TA='ki', TB='kt', MAXH=3, NPRE=2, PRE0=4, PH0=2, PRE1=8, PH1=1, NN=4),
+       scenarios=[dict(KA0=6, HA=2)], cbmc=SK_CBMC, timeout=1200,
+       desc='insert(k) || iteration: comparator order, earlier elements seen exactly once', bounds=B(max_level=3)),
+  dict(name='skipm_ins_2t', unit='skm_i_i', harness='h_skip.c', tiers=['thorough'], defines=dict(ROUNDS=1, MULTI=1, TA='ki', TB='ki', MAXH=3, NPRE=1, PRE0=6, PH0=2, NN=4),
+       scenarios=[dict(KA0=6, KB0=6, HA=2, HB=1), dict(KA0=6, KB0=6, HA=2, HB=2)], cbmc=SK_CBMC, timeout=2400,
+       desc='concurrent_multiset: two inserts of a key that is already present: all three equal keys stay, adjacent, on every level', bounds=B(max_level=3)),
 ]
 OUTSIDE = []
 STUBS = []
